@@ -24,6 +24,14 @@ def run(ctx):
     rng = random.Random(ctx.seed)
     rng.shuffle(cases)
     picked = cases[:240] if q else cases
+    sampled4 = 0
+    if not q:
+        raw4 = os.path.join(ctx.tmp, "ops4.jsonl")
+        ctx.add_tlc(vlib.run_tlc(ctx, "cluster", "BreakerOps", "BreakerOps_thorough.cfg", workers=1, cases_to=raw4, timeout=1200))
+        c4 = vlib.read_jsonl(raw4)
+        rng.shuffle(c4)
+        sampled4 = min(len(c4), 5000)
+        picked = picked + c4[:sampled4]      # 4 concurrent requests: a VERIF_SEED sample of the 65k histories
     traces, results = lc.run_sharded(ctx, "c10", picked, shards=12 if q else 14)
     allp = os.path.join(ctx.tmp, "c10_all.ndjson")
     with open(allp, "w") as fo:
@@ -62,6 +70,7 @@ def run(ctx):
     if v["matched"] is not None and v["matched"] < len(evs):
         fail(v["matched"] + 1, "trace-rejected:" + evs[v["matched"]]["ev"])
     ctx.cov["exhaustive"] = not q
+    ctx.cov["four_request_histories_sampled"] = sampled4
     ctx.cov["rule"] = ("every interleaving of start/finish of 3 concurrent requests x 5 ways to end (ok, retried after 503, upstream "
                        "reset, global timeout, client disconnect) from BreakerOps.tla (%d histories; quick: %d chosen by VERIF_SEED), "
                        "rotated over clusters with (max_requests,max_retries) in {(0,0),(2,0),(2,1),(1,1)}; books sampled after every "
